@@ -57,6 +57,14 @@ def _vc_key(ob):
 def _work(job):
     """Verify one function (or lemma); returns a JSON-able dict."""
     kind, name, timeout_ms = job
+    if kind == "native":
+        from .replay import run_native
+        tier = os.environ.get("VERIF_TIER_EFFECTIVE", "quick")
+        n, budget = (600, 240) if tier == "thorough" else (150, 60)
+        t0 = time.time()
+        nat = run_native(name, n=n, seed=int(os.environ.get("VERIF_SEED", "0") or 0), budget_s=budget)
+        return {"kind": "native", "name": name, "status": "native-only", "message": "", "obligations": [], "sha": "", "paths": 0,
+                "loops": [], "assumed": [], "notes": [], "file": "", "lineno": 0, "native": nat, "time_s": round(time.time() - t0, 2)}
     from . import verify, front
     from .verify import verify_function, solve_obligation
     if "all" not in _G:
@@ -164,6 +172,7 @@ def run_property(pid, tier="quick", seed=0, update_ledger=False, verbose=False):
     p = plan[pid]
     jobs = [("function", q, p.get("timeout_ms", 10000)) for q in p.get("functions", [])]
     jobs += [("lemma", q, p.get("timeout_ms", 10000)) for q in p.get("lemmas", [])]
+    jobs += [("native", q, 0) for q in p.get("native_only", [])]
     if tier == "thorough":
         jobs += [("function", q, 30000) for q in p.get("thorough_functions", [])]
     os.environ["VERIF_TIER_EFFECTIVE"] = tier
@@ -215,6 +224,17 @@ def run_property(pid, tier="quick", seed=0, update_ledger=False, verbose=False):
             bounded_results.append({"name": fn, "kind": "bounded-native", "status": nat.get("status"), "cases": nat.get("cases", 0),
                                     "skipped_by_requires": nat.get("skipped_by_requires", 0),
                                     "bound": "random small inputs (<= 400 cases, small value pools), real code under CPython"})
+        if r["status"] == "native-only":
+            if nat is None or nat.get("status") in ("error",):
+                undecided.append(f"{fn}: native check failed to run: {(nat or {}).get('message', '')[:300]}")
+            elif nat.get("status") == "violation":
+                for v in nat["violations"][:3]:
+                    key = (fn, v["clause"])
+                    if key in known_ob:
+                        expected_refuted.append({"function": fn, "obligation": v["clause"], "finding": known_ob[key]["id"]})
+                        continue
+                    violations.append((fn, v["clause"], {"model": None, "where": "", "text": v.get("text"), "bounded": True, "native": v}))
+            continue
         if r["status"] == "crash":
             crashed.append(f"{fn}: {r['message'][:1500]}")
             continue
